@@ -121,6 +121,37 @@ def amountInNum (t : NumText) : Res Int :=
 /-- `none`: the text is not a JSON number -/
 def amountIn (text : List Char) : Option (Res Int) := (scanNumber text).map amountInNum
 
+/-- what can stand where an amount is expected in a reply (strings and containers aside) -/
+inductive AmountVal
+  | num (text : List Char)
+  | nan                       -- `NaN` (json's parse_constant): float('nan')
+  | inf (neg : Bool)          -- `Infinity`, `-Infinity`
+  | null
+  | bool (b : Bool)
+deriving DecidableEq, Repr
+
+/-- `int(v * COIN)` for each of them; the exceptions are what CPython raises, not JSONRPCError -/
+def amountOfVal : AmountVal → Option (Res Int)
+  | .num t => amountIn t
+  | .nan => some (.error .valueerr)                    -- int(nan): ValueError
+  | .inf _ => some (.error (.py "OverflowError"))      -- int(±inf): OverflowError
+  | .null => some (.error (.py "TypeError"))           -- None * int
+  | .bool b => some (.ok (if b then (COIN : Int) else 0))   -- True * COIN
+
+/-! ### (i') amounts sent: the satoshis an emitted JSON number text denotes, exactly -/
+
+/-- `k` with `text = k / 10^8` exactly (`Spec.Rpc.denotesSat`), `none` when the text is no number or
+    denotes no whole number of satoshis.  This is what the check applies to the text the proxy puts
+    into the request body. -/
+def satoshisDenoted (text : List Char) : Option Int :=
+  match scanNumber text with
+  | none => none
+  | some t =>
+      if 0 ≤ t.expo + 8 then some (applySign t.neg (t.coeff * 10 ^ (t.expo + 8).toNat))
+      else if t.coeff % 10 ^ (-(t.expo + 8)).toNat = 0 then
+        some (applySign t.neg (t.coeff / 10 ^ (-(t.expo + 8)).toNat))
+      else none
+
 /-! ### (ii) hashes and hex transport -/
 
 def binasciiError : Exc := .py "Error"
@@ -150,6 +181,7 @@ inductive CodeVal
   | bool (b : Bool)
   | null
   | str
+  | unhashable                                 -- a JSON array or object
 deriving DecidableEq, Repr
 
 /-- the `error` member of the reply object -/
@@ -163,13 +195,16 @@ deriving DecidableEq, Repr
 inductive Reply
   | noResponse                                 -- `getresponse()` returned None
   | nonJson                                    -- the body does not parse
+  | nonUtf8                                    -- the body is not UTF-8: `.decode('utf8')` sits outside the `try`
+  | nonObject                                  -- valid JSON, but an array, number, string, null, true/false
   | obj (err : ErrVal) (result : Option String)
 deriving DecidableEq, Repr
 
 inductive Outcome
   | result (v : String)
   | raise (cls : String) (code : String)       -- JSONRPCError (sub)class and `ex.error['code']`
-  | pyExc (cls : String)                       -- the wrappers' documented IndexError
+  | pyExc (cls : String)                       -- a non-RPC exception escapes: the wrappers' documented
+                                               -- IndexError, or CPython's own (AttributeError, UnicodeDecodeError)
 deriving DecidableEq, Repr
 
 /-- the dictionary key a code value hashes/compares equal to (`True == 1`, `Decimal('-5.0') == -5`) -/
@@ -183,6 +218,8 @@ def CodeVal.key : CodeVal → Option Int
   | .bool b => some (if b then 1 else 0)
   | .null => none
   | .str => none
+  | .unhashable => none                        -- no registered code is a list or a dict (D19: the shipped
+                                               -- `dict.get` raises TypeError here instead)
 
 def CodeVal.show : CodeVal → String
   | .absent => "-345"
@@ -191,6 +228,7 @@ def CodeVal.show : CodeVal → String
   | .bool b => if b then "true" else "false"
   | .null => "null"
   | .str => "str"
+  | .unhashable => "unhashable"
 
 /-- `JSONRPCError.SUBCLS_BY_CODE.get(rpc_error['code'], JSONRPCError)` -/
 def classFor (c : CodeVal) : String :=
@@ -202,6 +240,8 @@ def classFor (c : CodeVal) : String :=
 def callOutcome : Reply → Outcome
   | .noResponse => .raise (Spec.Rpc.classOf (-342)) "-342"
   | .nonJson => .raise (Spec.Rpc.classOf (-342)) "-342"
+  | .nonUtf8 => .pyExc "UnicodeDecodeError"       -- `http_response.read().decode('utf8')`
+  | .nonObject => .pyExc "AttributeError"          -- `response.get('error')` on a list/int/str/None
   | .obj (.dict code) _ => .raise (classFor code) code.show
   | .obj .other _ => .raise (Spec.Rpc.classOf (-344)) "-344"
   | .obj _ none => .raise (Spec.Rpc.classOf (-343)) "-343"
